@@ -168,6 +168,29 @@ NAME_GRAMMAR = {
 
 def name_grammar_rules(ck):
     c = crate("rs", CC)
+    # the length limit of names is decided by the three validators. Any OTHER comparison with MAX_FUNC_NAME_SIZE (an early
+    # refusal in a decoder, a shared helper) may refuse only what every validator it feeds refuses: `len > MAX` is refused by all
+    # three, `len >= MAX` only by the entrypoint validator - used in front of contract or receive names it refuses the valid
+    # 100-byte names (they still encode, and no longer decode)
+    nother = 0
+    for p0 in sorted(c.paths()):
+        if re.search(r"::tests?::", p0) or any(p0.endswith(sfx) for sfx in NAME_GRAMMAR):
+            continue
+        for b in c.get_all(p0):
+            f = Fn(b)
+            for cx in rules.comparisons(f):
+                for side in ("a", "b"):
+                    if not any(a[0] == "const" and a[1].endswith("constants::MAX_FUNC_NAME_SIZE") for a in f.origins(cx[side])):
+                        continue
+                    rel, d = rules.cmp_rejects(f, cx)
+                    if rel is not None and side == "a":
+                        rel = rules.FLIP[rel]
+                    nother += 1
+                    okr = rel == "Gt" or (rel == "Ge" and re.search(r"[Ee]ntrypoint", p0) is not None) or rel is None
+                    ck.ob("CMP", p0, "length-refusal-no-stricter-than-the-validators", okr,
+                          "refuses when len %s MAX_FUNC_NAME_SIZE: nothing a validator accepts" % rel if okr else
+                          "refuses when len %s MAX_FUNC_NAME_SIZE outside the validators: contract and receive names of exactly MAX_FUNC_NAME_SIZE bytes are valid (and are written), but are refused here" % rel, f.loc(cx["bb"]))
+    ck.note("%d comparisons with MAX_FUNC_NAME_SIZE outside the three validators" % nother)
     for suffix, (preds, lenrel, doc) in sorted(NAME_GRAMMAR.items()):
         f = getfn(ck, "rs", CC, CC + suffix)
         if not f:
